@@ -70,7 +70,7 @@ ForeignField(f, c, r) ==
 Prune(s) == [s EXCEPT !.tasks = SelectSeq(s.tasks, LAMBDA t : t.stage # "done"), !.saw = <<>>]
 
 ServeOne(s, inst) ==      \* the server side of one exchange on a transport without pooled buffers, as server.go orders it
-  LET b == CHOOSE b \in s.pool : TRUE
+  LET b == CHOOSE b \in Free(s) : TRUE
       s1 == Recv(s, b, inst)
       t == Len(s1.tasks)
       s4 == Reply(Handle(Release(Decode(s1, t), t), t), t) IN
@@ -138,12 +138,14 @@ Next ==
                ELSE MarkBadC(l, "recorder-send-order") /\ UNCHANGED x
        [] Ev.ev = "get" ->        \* pool.get hook: the buffer leaves the pool
             /\ UNCHANGED <<x, cur, sentAt>>
-            /\ IF Ev.buf \in x.pool /\ Ev.buf \notin out THEN out' = out \cup {Ev.buf}
+            /\ IF InPool(x, Ev.buf) /\ Ev.buf \notin out THEN out' = out \cup {Ev.buf}
                ELSE MarkBadC(l, "buffer-handed-out-while-in-use") /\ UNCHANGED out
        [] Ev.ev = "recv" ->       \* a datagram from client c was read into the buffer (seen by the DecorateReader)
             /\ UNCHANGED <<cur, sentAt>>
             /\ IF ~Pooled(Ev) THEN UNCHANGED <<x, out>>
                ELSE IF Ev.buf \notin out THEN MarkBadC(l, "received-into-a-buffer-not-taken-from-the-pool") /\ UNCHANGED <<x, out>>
+               ELSE IF Ev.c = 0 THEN       \* from one of the recorder's noise senders: a datagram that never reaches a handler
+                    x' = RecvJunk(SendJunk(x), Ev.buf) /\ out' = out \ {Ev.buf}
                ELSE IF Ev.inst \notin TraceClients \/ ClientOf(Ev.inst) # Ev.c \/ x.net[Ev.inst] = 0
                     THEN MarkBadC(l, "recorder-recv-unsent") /\ UNCHANGED <<x, out>>
                ELSE /\ x' = Recv(x, Ev.buf, Ev.inst) /\ out' = out \ {Ev.buf}
@@ -155,7 +157,9 @@ Next ==
             /\ UNCHANGED <<cur, sentAt>>
             /\ IF Ev.buf \in out THEN out' = out \ {Ev.buf} /\ UNCHANGED x       \* the read failed, nothing was received
                ELSE IF Holding(x, Ev.buf) # {} THEN
-                 LET t == MinOf(Holding(x, Ev.buf)) IN x' = Release(Decode(x, t), t) /\ UNCHANGED out
+                 LET t == MinOf(Holding(x, Ev.buf)) IN
+                 /\ x' = (IF x.tasks[t].from = Junk THEN Prune(JunkRelease(x, t)) ELSE Release(Decode(x, t), t))
+                 /\ UNCHANGED out
                ELSE MarkBadC(l, "buffer-put-back-twice") /\ UNCHANGED <<x, out>>
        [] Ev.ev = "handle" -> HandleEvent /\ UNCHANGED <<cur, sentAt, out>>
        [] Ev.ev = "crecv" ->
@@ -174,7 +178,7 @@ Next ==
        [] OTHER -> MarkBadC(l, "unknown-event") /\ UNCHANGED <<x, cur, sentAt, out>>
 
 \* the machine itself never mixes (Decode before Release): checked along the way
-ModelSane == NoMixing(x) /\ BufferOwned(x)
+ModelSane == NoMixing(x) /\ BufferOwned(x) /\ PoolOnce(x)
 
 AcceptedC == PrintT("VP:cls=" \o ToJson(TLCGet(3))) /\ Accepted
 =============================================================================
